@@ -23,6 +23,7 @@ import (
 	"time"
 
 	"github.com/emitter-io/emitter/internal/async"
+	"github.com/emitter-io/emitter/internal/verif"
 	"github.com/kelindar/rate"
 )
 
@@ -63,16 +64,21 @@ func (m *Conn) Write(p []byte) (int, error) {
 
 	// If we have reached the limit we can possibly write, queue up the packet.
 	if m.limit.Limit() {
+		verif.At("conn.write.limited", m)
 		return m.enqueue(p)
 	}
 
 	// If we have something in the buffer, flush everything.
+	verif.At("conn.write.unlimited", m)
 	if m.Len() > 0 {
+		verif.At("conn.write.nonempty", m)
 		m.enqueue(p)
+		verif.At("conn.write.enqueued", m)
 		return m.Flush()
 	}
 
 	// Nothing in the buffer and we're not rate-limited, just write to the socket.
+	verif.At("conn.write.direct", m)
 	return m.socket.Write(p)
 }
 
@@ -90,10 +96,14 @@ func (m *Conn) Flush() (n int, err error) {
 	}
 
 	// Flush everything and reset the buffer
+	verif.At("conn.flush.checked", m)
 	m.Lock()
+	verif.At("conn.flush.locked", m)
 	n, err = m.socket.Write(m.writer.Bytes())
+	verif.At("conn.flush.written", m)
 	m.writer.Reset()
 	m.Unlock()
+	verif.At("conn.flush.done", m)
 	return
 }
 
